@@ -191,9 +191,35 @@ func (fg *FG) chanValueFacts(st *State, v Val, in ssa.Instruction, sending bool)
 	}
 }
 
+// beforeSend checks the contract's "before send assert" steps: the value about to be sent is `sent`,
+// the channel `sentTo`; parameters and locals of the sending function are in scope.
+func (fg *FG) beforeSend(st *State, ch, v Val, in ssa.Instruction) {
+	if fg.c == nil || fg.c.Before == nil || len(fg.c.Before["send"]) == 0 {
+		return
+	}
+	fg.beforeHit["send"] = true
+	env := &Env{fg: fg, vars: map[string]Val{"sent": v, "sentTo": ch}, st: st, old: fg.entrySt}
+	if p := fg.g.pkgByName(fg.c.Pkg); p != nil {
+		env.pkg = p
+	}
+	for n, pv := range fg.params {
+		if _, clash := env.vars[n]; !clash {
+			env.vars[n] = pv
+		}
+	}
+	if in != nil && in.Block() != nil {
+		env.local = fg.localResolverAt(in.Block(), in.Block(), st)
+	}
+	for k, sc := range fg.c.Before["send"] {
+		t := env.tr(sc.E)
+		fg.oblig("assert", fmt.Sprintf("assert:before:send#%s@%s", clauseName(sc, k), fg.instrLabel(in)), sc.Tag, fg.guard(), t.T, sc.Src, fmt.Sprintf("%s:%d", sc.File, sc.Line))
+	}
+}
+
 func (fg *FG) send(st *State, x *ssa.Send) {
 	ch := fg.val(x.Chan)
 	fg.chanValueFacts(st, fg.val(x.X), x, true)
+	fg.beforeSend(st, ch, fg.val(x.X), x)
 	l, c, cl := fg.chanHeaps(st)
 	fg.safe("sendclosed", x, fmt.Sprintf("(and (not (= %s 0)) (not (select %s %s)))", ch.T, cl, ch.T))
 	if fg.g.nonblockingFn(fg.name) {
@@ -252,11 +278,26 @@ func (fg *FG) selectInstr(st *State, x *ssa.Select) {
 		fg.R[fg.curBlock] = saved
 		res = append(res, v)
 	}
-	for _, s := range x.States {
-		if s.Dir == types.SendOnly {
-			fg.fail("select with a send case is outside the subset")
+	for i, s := range x.States {
+		ch := fg.val(s.Chan)
+		if s.Dir != types.SendOnly {
+			continue
 		}
-		fg.val(s.Chan)
+		// a send case: when it is the chosen one the channel is not nil (a nil channel is never ready),
+		// must not be closed (the send would panic), the sender-side contracts hold for the value,
+		// and the buffer grows
+		saved := fg.R[fg.curBlock]
+		chosen := fmt.Sprintf("(= %s %d)", idx, i)
+		fg.assume(fmt.Sprintf("(=> %s (not (= %s 0)))", chosen, ch.T))
+		fg.R[fg.curBlock] = fmt.Sprintf("(and %s %s)", saved, chosen)
+		v := fg.val(s.Send)
+		fg.chanValueFacts(st, v, x, true)
+		fg.beforeSend(st, ch, v, x)
+		l, _, cl := fg.chanHeaps(st)
+		fg.safe("sendclosed", x, fmt.Sprintf("(not (select %s %s))", cl, ch.T))
+		fg.frameCheck(st, &Loc{Kind: LCell, Heap: "CH_len", Ref: ch.T}, x)
+		fg.R[fg.curBlock] = saved
+		fg.setHeap(st, "CH_len", fmt.Sprintf("(ite %s (store %s %s (+ (select %s %s) 1)) %s)", chosen, l, ch.T, l, ch.T, l))
 	}
 	fg.vals[x] = Val{Tuple: res, Ty: x.Type()}
 }
